@@ -412,6 +412,10 @@ func (t *translator) block(stmts []ast.Stmt, rest func() string) string {
 			}
 			return "let " + cn + " := " + v.s + " in\n  " + body
 		}
+		if s.Tok == token.DEFINE && len(s.Lhs) >= 2 && len(s.Lhs) == len(s.Rhs) {
+			// a, b := e1, e2: the right-hand sides are evaluated before any of the names is bound
+			return t.bindAll(s, tail)
+		}
 		if s.Tok == token.DEFINE && len(s.Lhs) == 2 && len(s.Rhs) == 1 {
 			key := exprString(s.Lhs[0]) + ", " + exprString(s.Lhs[1]) + " := " + exprString(s.Rhs[0])
 			if _, ok := t.spec.syms[key]; ok {
@@ -446,7 +450,43 @@ func (t *translator) block(stmts []ast.Stmt, rest func() string) string {
 		c := t.boolExpr(s.Cond)
 		return "if " + c + "\n  then " + t.block(s.Body.List, tail) + "\n  else " + tail()
 	case *ast.SwitchStmt:
-		if s.Init != nil || s.Tag == nil {
+		if s.Tag == nil {
+			// switch [a, b := e1, e2]; { case c: ... }: the first case whose condition holds; no case: what follows the switch
+			cases := func() string {
+				o := ""
+				var def []ast.Stmt
+				for _, cc := range s.Body.List {
+					cl := cc.(*ast.CaseClause)
+					if cl.List == nil {
+						def = cl.Body
+						continue
+					}
+					for _, st := range cl.Body {
+						if b, ok := st.(*ast.BranchStmt); ok && b.Tok == token.FALLTHROUGH {
+							die("%s: fallthrough in a tagless switch", t.spec.name)
+						}
+					}
+					conds := []string{}
+					for _, v := range cl.List {
+						conds = append(conds, "("+t.boolExpr(v)+")")
+					}
+					o += "if " + strings.Join(conds, " || ") + "\n  then " + t.block(cl.Body, tail) + "\n  else "
+				}
+				if def != nil {
+					return o + t.block(def, tail)
+				}
+				return o + tail()
+			}
+			if s.Init == nil {
+				return cases()
+			}
+			as, ok := s.Init.(*ast.AssignStmt)
+			if !ok || as.Tok != token.DEFINE || len(as.Lhs) != len(as.Rhs) {
+				die("%s: switch header outside the subset: %s", t.spec.name, stmtString(s.Init))
+			}
+			return t.bindAll(as, cases)
+		}
+		if s.Init != nil {
 			die("%s: switch outside the subset", t.spec.name)
 		}
 		tag := t.expr(s.Tag)
@@ -484,6 +524,48 @@ func (t *translator) block(stmts []ast.Stmt, rest func() string) string {
 	}
 	die("%s: statement outside the subset: %s", t.spec.name, stmtString(stmts[0]))
 	return ""
+}
+
+// bindAll translates a1, ..., an := e1, ..., en (all right-hand sides first) around body
+func (t *translator) bindAll(as *ast.AssignStmt, body func() string) string {
+	vals := []term{}
+	for _, r := range as.Rhs {
+		vals = append(vals, t.expr(r))
+	}
+	type saved struct {
+		name string
+		old  term
+		had  bool
+	}
+	sv := []saved{}
+	lets := ""
+	for i, l := range as.Lhs {
+		id, ok := l.(*ast.Ident)
+		if !ok {
+			die("%s: assignment outside the subset: %s", t.spec.name, stmtString(as))
+		}
+		if _, ok := t.spec.syms[id.Name]; ok {
+			die("%s: %s is re-bound", t.spec.name, id.Name)
+		}
+		// fresh names: an earlier binding of the same Go name may occur in a later right-hand side
+		lets += "let w_" + id.Name + " := " + vals[i].s + " in\n  "
+	}
+	for i, l := range as.Lhs {
+		id := l.(*ast.Ident)
+		old, had := t.locals[id.Name]
+		sv = append(sv, saved{id.Name, old, had})
+		lets += "let v_" + id.Name + " := w_" + id.Name + " in\n  "
+		t.locals[id.Name] = term{"v_" + id.Name, vals[i].k}
+	}
+	r := body()
+	for _, x := range sv {
+		if x.had {
+			t.locals[x.name] = x.old
+		} else {
+			delete(t.locals, x.name)
+		}
+	}
+	return lets + r
 }
 
 func stmtString(s ast.Stmt) string {
@@ -769,6 +851,9 @@ func main() {
 	})
 	group("SrcStaleIfError.v", func() {
 		translateCanStaleOnError(intByName, intCE, &out)
+	})
+	group("SrcVary.v", func() {
+		translateVaryMatcher(intByName, intCE, &out)
 	})
 	group("SrcTimed.v", func() {
 		translateRoundTripTimed(rootByName, &out)
